@@ -93,6 +93,9 @@ class EvaluatedStub:
             return ("cls", "9")
         if t is Ellipsis:
             raise StubError("annotation", "bare Ellipsis")
+        if getattr(t, "__mtv_name__", None) is not None and not isinstance(t, _TypedDictMeta):
+            # `class X(TypedDict)` where the name TypedDict denotes something else (a later import rebinds it)
+            raise StubError("class-body", "generated class %s is not a TypedDict: its bases are %r" % (t.__mtv_name__, t.__bases__))
         if isinstance(t, _TypedDictMeta):
             ann = dict(t.__annotations__)
             name = getattr(t, "__mtv_name__", None)
@@ -145,4 +148,7 @@ class EvaluatedStub:
             return (name,) + tuple(kids)
         if origin is typing.Union:
             return ("union",) + tuple(self.resolve(a, tbl, depth + 1) for a in t.__args__)
-        return tyconv.ty_to_tree(t, tbl)
+        try:
+            return tyconv.ty_to_tree(t, tbl)
+        except tyconv.Unrepresentable as e:
+            raise StubError("annotation", "not a type of the grammar: %s" % (e,))
